@@ -19,9 +19,9 @@ import (
 const seg = refenc.SegSize + refenc.TagSize
 
 type layout struct {
-	header   int   // length of the three header lines
+	header   int    // length of the three header lines
 	line     [3]int // start offsets of the three lines
-	segStart []int // start offset of each segment
+	segStart []int  // start offset of each segment
 	segLen   []int
 	total    int
 }
@@ -296,5 +296,5 @@ func body(s *simrt.Sim, tier string) {
 }
 
 func TestWorker(t *testing.T) {
-	common.Main(t, common.Harness{ID: "C02", NoDelays: true, Body: body})
+	common.Main(t, common.Harness{ID: "C02", NoDelays: true, SeedCrypto: true, Body: body})
 }
